@@ -635,6 +635,10 @@ def can_fuse_primitive_ops(
     primitive_op1: PrimitiveOperation, primitive_op2: PrimitiveOperation
 ) -> bool:
     if is_fuse_candidate(primitive_op1) and is_fuse_candidate(primitive_op2):
+        # fuse() composes key functions that map an output block to a single block of a
+        # single input, so the second op must not read several blocks per task
+        if tuple(primitive_op2.pipeline.config.num_input_blocks) != (1,):
+            return False
         return primitive_op1.num_tasks == primitive_op2.num_tasks
     return False
 
